@@ -121,6 +121,7 @@ bool ThreadPool::initialize(ssize_t min_thread_num, ssize_t max_thread_num)
                 return false;
         CPP_TBOX_VERIF_POINT("tp.init", min_thread_num, max_thread_num);
     }
+    CPP_TBOX_VERIF_POINT("tp.init.unlocked", 0, 0);
 
     d_->all_threads_stop_flag = false;
     d_->is_ready = true;
@@ -264,7 +265,7 @@ void ThreadPool::cleanup()
             }
         );
         d_->threads_cabinet.clear();
-        CPP_TBOX_VERIF_POINT("tp.cleanup.collect", thread_vec.size(), 0);
+        CPP_TBOX_VERIF_POINT("tp.cleanup.collect", thread_vec.size(), d_->all_threads_stop_flag);
     }
     CPP_TBOX_VERIF_POINT("tp.cleanup.unlocked", 0, 0);
 
